@@ -21,7 +21,7 @@ var known = ev.Matcher[Case]{
 }
 
 const rule = "real CLI on SQLite files. migrate apply: directories of 1-3 files x 1-3 statements (journal INSERTs; the first statement creates the journal table) x a failing statement at every (file, statement) position or none, failing either at once (missing table) or on a foreign-key violation with enforcement on (_fk=1: immediate without a transaction, found at commit inside one) " +
-	"x tx-mode {file, all, none} x per-file atlas:txmode directives x optional count argument; every configuration also with --dry-run. " +
+	"x tx-mode {file, all, none} x per-file atlas:txmode directives x optional count argument; directories with 1-3 checkpoint files (a fresh database starts at the last one) with a failure at every position from there on; every configuration also with --dry-run. " +
 	"schema apply: populated tables and desired schemas whose plan succeeds on an early statement and fails on the data later (unique index over duplicates, NOT NULL over NULLs), with --auto-approve and with --dry-run. " +
 	"Oracle (independent connection; journal rows in order, revision rows version/applied/total/error, schema objects; timestamps and hashes masked): file mode = state after the last completely applied file; all mode = state before the command; " +
 	"none mode = exactly the successful prefix recorded with the error; after fixing the file and re-hashing the re-run reaches the state of a failure-free run; schema apply failure and every --dry-run leave the full data dump unchanged. " +
@@ -88,6 +88,32 @@ func enumerate(thorough bool, f func(Case) bool) {
 			}
 		}
 	}
+	// directories with checkpoint files: a fresh database starts at the last checkpoint; a failure inside it (or after it),
+	// then fix and re-run, must end like a failure-free run
+	type ccfg struct {
+		sh []int
+		ck []int
+	}
+	ccfgs := []ccfg{{[]int{2, 2, 2, 2, 2}, []int{1, 3}}, {[]int{1, 2, 2, 2}, []int{0, 1}}}
+	if thorough {
+		ccfgs = append(ccfgs, ccfg{[]int{2, 2, 2, 2, 2, 2}, []int{1, 3}}, ccfg{[]int{2, 3, 2, 3, 2}, []int{0, 2, 3}}, ccfg{[]int{2, 2, 2}, []int{2}})
+	}
+	for _, cc := range ccfgs {
+		last := cc.ck[len(cc.ck)-1]
+		for _, mode := range []string{"none", "file", "all"} {
+			pos := [][2]int{{-1, 0}}
+			for fi := last; fi < len(cc.sh); fi++ {
+				for j := 0; j < cc.sh[fi]; j++ {
+					pos = append(pos, [2]int{fi, j})
+				}
+			}
+			for _, p := range pos {
+				if !f(Case{Shape: cc.sh, FailF: p[0], FailJ: p[1], Mode: mode, Ckpt: cc.ck}) {
+					return
+				}
+			}
+		}
+	}
 	for v := 0; v < 3; v++ {
 		for _, dry := range []bool{false, true} {
 			if !f(Case{Schema: true, Variant: v, DryRun: dry, FailF: -1}) {
@@ -131,13 +157,16 @@ func TestCheck(t *testing.T) {
 			if c.FailKind == 1 {
 				cls += "/foreign-key-violation"
 			}
+			if len(c.Ckpt) > 0 {
+				cls += fmt.Sprintf("/checkpoints=%d", len(c.Ckpt))
+			}
 			if len(c.Directives) > 0 {
 				cls += "/directives"
 			}
 		}
 		col.Class(cls)
 		if out.Fired || c.DryRun || c.Schema {
-			col.NonTrivial(fmt.Sprintf("%v|%d.%d|%s|%v|%d|%v|%v.%d|%d", c.Shape, c.FailF, c.FailJ, c.Mode, c.Directives, c.Count, c.DryRun, c.Schema, c.Variant, c.FailKind))
+			col.NonTrivial(fmt.Sprintf("%v|%d.%d|%s|%v|%d|%v|%v.%d|%d|%v", c.Shape, c.FailF, c.FailJ, c.Mode, c.Directives, c.Count, c.DryRun, c.Schema, c.Variant, c.FailKind, c.Ckpt))
 		}
 		col.Sample(cls, c)
 		return err
